@@ -117,6 +117,7 @@ meta("C06",
                   "result well formed. A change inside a callee is noticed by this obligation because the callee's real body is "
                   "verified in place."),
      assumptions=["inputs satisfy the invariant of C07 (well formed, reparse-safe) and delimiter-level legality (harness/vuri.h vu_legal)",
+                  "the path clause is not demanded where the specified segment list is rootless with an empty first segment (the RFC text of that shape denotes an absolute path, which the property also forbids; DESIGN 10.13): there only 'no host-less result begins with //' is demanded",
                   LIBC_ASSUME, BOUNDED_NOTE],
      level_text=("harness-asserted contract of uriAddBaseUriExMm against spec_resolve (RFC 3986 5.2.2-5.2.4 on views), all real callees "
                  "verified in place, all contents symbolic, every allocation may fail; bounded in segments (2x2 quick, 3x3 thorough) and "
